@@ -161,3 +161,15 @@ package network
 //@   at call! UpdatePrivileges#1 assert #the-privilege-graph-is-built-only-with-levels-and-a-default-level recv == d && d.DefaultDesiredPriv != "" && len(d.PrivilegeLevels) > 0 && optlog == optBase ++ applied(opts, box("*network.Driver", d), len(opts))
 //@   at return assert #no-levels-or-no-default-level-is-a-bad-option result.1 == nil ==> result.0 == d
 //@   ensures #nil-on-error result.1 != nil ==> result.0 == nil
+
+// ---- C06 / C07 / C17: the network Open runs its own on-open hook after the generic open ----------------------------------------
+//@ ghost nhookErr error
+//@ func (*Driver).Open [C06 C07 C17]
+//@   requires RI(d.Channel.Q) && d.Channel.Errs != d.Channel.Q.depthChan && d.Channel.PromptSearchDepth >= 0
+//@   at call! Open#1 assert #the-generic-driver-is-opened-first recv == d.Driver
+//@   after call Open#1 set nhookErr = nil
+//@   after call dyn#1 set nhookErr = result
+//@   at call dyn#1 assert #the-hook-runs-on-this-driver-after-a-successful-generic-open arg0 == d && err == nil
+//@   at return assert #a-failing-hook-fails-the-open-with-its-own-error nhookErr != nil ==> result == nhookErr
+//@   at call! Close#1 assert #the-channel-is-closed-only-because-the-hook-failed nhookErr != nil && recv == d.Channel
+//@   at return assert #success-means-generic-open-and-hook-passed result == nil ==> nhookErr == nil
